@@ -1,6 +1,8 @@
 package main
 
 import (
+	"syscall"
+	"fmt"
 	"bufio"
 	"encoding/json"
 	"errors"
@@ -57,6 +59,19 @@ type scriptedReader struct {
 }
 
 var errTimeout = errors.New("read /dev/ttyACM0: i/o timeout")
+
+// the shapes in which a read time-out reaches the caller: a plain text, the os package's deadline error inside a
+// *PathError (what a file with a read deadline returns), and errors that say "i/o timeout" while wrapping a
+// lower-level cause that does not
+var timeoutErrors = []error{
+	errTimeout,
+	&os.PathError{Op: "read", Path: "/dev/ttyACM0", Err: os.ErrDeadlineExceeded},
+	fmt.Errorf("read /dev/ttyUSB0: i/o timeout: %w", syscall.EAGAIN),
+	&os.PathError{Op: "read", Path: "/dev/ttyACM0", Err: fmt.Errorf("i/o timeout (%w)", syscall.ETIMEDOUT)},
+	fmt.Errorf("serial port: %w", errTimeout),
+}
+
+func (r *scriptedReader) timeoutErr() error { return timeoutErrors[(r.pos+len(r.script))%len(timeoutErrors)] }
 // other read errors: none of them is io.EOF and none contains "i/o timeout"
 var otherErrors = []error{
 	errors.New("read /dev/ttyACM0: input/output error"),
@@ -96,7 +111,7 @@ func (r *scriptedReader) Read(p []byte) (int, error) {
 			case "E":
 				return n, io.EOF
 			case "T":
-				return n, errTimeout
+				return n, r.timeoutErr()
 			}
 			return n, otherErrors[(r.pos+len(r.script))%len(otherErrors)]
 		}
@@ -108,7 +123,7 @@ func (r *scriptedReader) Read(p []byte) (int, error) {
 	case "T":
 		r.pos++
 		r.kinds = append(r.kinds, "T")
-		return 0, errTimeout
+		return 0, r.timeoutErr()
 	}
 	r.pos++
 	r.kinds = append(r.kinds, "X")
